@@ -306,7 +306,16 @@ def gen_targets() -> dict:
 
 def gen_props() -> set:
     """Properties that have a translator target list (their own or, via "same_as", another property's)."""
-    return set(gen_targets())
+    return {k for k, v in gen_targets().items() if "of" not in v}
+
+
+def gen_groups(prop: str) -> list:
+    """The target groups tied for a property: its own list (or the one it shares via "same_as") and every further
+    group that names it with "of" (each group has its own generated file PyodaGen/<group>.lean and its own agreement
+    module PyodaProofs/GenAgree<group>.lean, so that every file stays small)."""
+    tg = gen_targets()
+    base = tg.get(prop, {}).get("same_as", prop)
+    return [prop] + sorted(k for k, v in tg.items() if v.get("of") == base)
 
 
 def _enclosing_decl(path: Path, line: int) -> str:
@@ -453,15 +462,21 @@ def gen_tie(prop: str) -> dict:
 
 def apply_gen_tie(prop: str, proof: dict) -> None:
     """Run the tie and fold its result into a proof-result dictionary (a failed tie is a failed proof obligation)."""
-    tie = gen_tie(prop)
-    proof["gen_tie"] = tie
-    if not tie["ok"]:
-        proof["ok"] = False
-        proof.setdefault("problems", []).extend(tie["problems"])
-        if isinstance(proof.get("theorems"), dict):
-            for t in tie["broken_theorems"]:
-                proof["theorems"].pop(t, None)  # no longer counted as checked (matters under --no-proof)
-        print(f"gen-tie [{prop}] BROKEN ({tie['mode']}, source {tie['repo']}): " + ", ".join(sorted({p['theorem'] for p in tie['problems']})[:12]))
+    for k, group in enumerate(gen_groups(prop)):
+        tie = gen_tie(group)
+        if k == 0:
+            proof["gen_tie"] = tie
+        else:
+            proof["gen_tie"].setdefault("groups", {})[group] = tie
+            proof["gen_tie"]["wall_s"] = round(proof["gen_tie"].get("wall_s", 0) + tie.get("wall_s", 0), 2)
+        if not tie["ok"]:
+            proof["ok"] = False
+            proof["gen_tie"]["ok"] = False
+            proof.setdefault("problems", []).extend(tie["problems"])
+            if isinstance(proof.get("theorems"), dict):
+                for t in tie["broken_theorems"]:
+                    proof["theorems"].pop(t, None)  # no longer counted as checked (matters under --no-proof)
+            print(f"gen-tie [{group}] BROKEN ({tie['mode']}, source {tie['repo']}): " + ", ".join(sorted({p['theorem'] for p in tie['problems']})[:12]))
 
 
 # --------------------------------------------------------------------------------------
